@@ -1,4 +1,181 @@
-From Dns Require Import Model.Msg Model.Truncate.
-(* placeholder until the theorems land *)
-Theorem placeholder_C08 : truncate_loop [] 0%Z 0%Z None O = (0%Z, O, None).
-Proof. reflexivity. Qed.
+(* Props/C08.v — property C08: Msg.Len / Len(rr) never underestimate what Pack
+   writes, are exact for plain content, and Pack never fails for lack of room.
+   Only statements; proofs in Proofs/Len*Proofs.v.
+
+   Vocabulary.  The pack side writes into [pn_out st] (the octets so far, the
+   write offset is its length) under a buffer length [cap]; [pn_cm st] is the
+   compression map ([None]: no map).  [rr_len r] is dns.Len(rr).
+   [rr_okb r] says (a) the record's kind has a pack() and a len() sequence in the
+   tables regenerated from zmsg.go / ztypes.go and the two are ALIGNED — checked
+   by computation over the whole tables in [every_type_is_aligned] below, this
+   is the obligation that fails when somebody edits one of the ~85 len()
+   methods — and (b) for []EDNS0 / []SVCBKeyValue values the length the value's
+   own len() reports (third component of V_pairs, filled in by the harness from
+   the Go len()) is at least the length of what its pack() returns. *)
+From Dns Require Import Gen.Layouts Gen.Lens Gen.Registry.
+From Dns Require Import Model.Msg Proofs.LenFieldProofs Proofs.LenRRProofs Proofs.LenMsgProofs.
+Open Scope list_scope.
+Open Scope N_scope.
+
+(* ---------------- names ---------------- *)
+(* a packed name never takes more than escapedNameLen + 1 octets, in ANY state:
+   with or without compression map, compressing or not, whatever the buffer *)
+Theorem packed_name_at_most_escaped_len :
+  forall (s : bytes) (cap : N) (compress : bool) (st st' : pn_state),
+    pack_name s cap compress st = Ok st' ->
+    lenN (pn_out st') <= lenN (pn_out st) + escaped_name_len s + 1.
+Proof. exact pack_name_size_le. Qed.
+Print Assumptions packed_name_at_most_escaped_len.
+
+(* ... and exactly that many when no pointer can be written *)
+Theorem packed_name_exact_without_pointer :
+  forall (s : bytes) (cap : N) (compress : bool) (st st' : pn_state),
+    pn_cm st = None \/ compress = false -> s <> [] -> s <> [46] ->
+    pack_name s cap compress st = Ok st' ->
+    lenN (pn_out st') = lenN (pn_out st) + escaped_name_len s + 1.
+Proof. exact pack_name_exact. Qed.
+Print Assumptions packed_name_exact_without_pointer.
+
+(* ---------------- the tables ---------------- *)
+(* every record type of zmsg.go (through its base kind for the types that embed
+   another one) and every type code of the registry has aligned sequences *)
+Theorem every_type_is_aligned :
+  forallb (fun L => kind_ok (base_kind (tl_name L))) layouts = true /\
+  forall t : N, kind_ok (kind_of_type t) = true.
+Proof. split; [exact tables_aligned|exact kind_of_type_ok]. Qed.
+Print Assumptions every_type_is_aligned.
+
+(* ---------------- one record ---------------- *)
+(* Len(rr) >= octets written by packRR, for any buffer, compression setting and map *)
+Theorem rr_len_never_underestimates :
+  forall (r : rr) (cap : N) (compress : bool) (st st' : pn_state),
+    rr_okb r = true -> pack_rr r cap compress st = Ok st' ->
+    lenN (pn_out st') - lenN (pn_out st) <= rr_len r.
+Proof. exact rr_len_ge_pack. Qed.
+Print Assumptions rr_len_never_underestimates.
+
+(* the exactness clause for one record: kind among A, AAAA, NS, CNAME, SOA, PTR,
+   MX, SRV, TXT, DNAME, MINFO, RP, AFSDB, KX, NAPTR, HINFO (any kind whose
+   sequences align with nothing left over), non-empty names and no backslash in
+   any name or character-string; packed without compression map into a buffer
+   that is not already full *)
+Theorem rr_len_exact_for_plain_records :
+  forall (r : rr) (cap : N) (compress : bool) (st st' : pn_state),
+    rr_plain r = true -> pn_cm st = None -> poff st < cap ->
+    pack_rr r cap compress st = Ok st' ->
+    poff st' = poff st + rr_len r /\ pn_cm st' = None.
+Proof. exact rr_len_exact_plain. Qed.
+Print Assumptions rr_len_exact_for_plain_records.
+
+Theorem the_sixteen_common_kinds_are_exact : forallb kind_exact exact_kinds = true.
+Proof. exact exact_kinds_aligned. Qed.
+Print Assumptions the_sixteen_common_kinds_are_exact.
+
+(* packRR cannot fail for lack of room: with any two buffers longer than
+   offset + Len(rr) it returns the same result, value or error *)
+Theorem packrr_result_independent_of_buffer :
+  forall (r : rr) (compress : bool) (st : pn_state) (cap cap' : N),
+    rr_okb r = true -> poff st + rr_len r < cap -> poff st + rr_len r < cap' ->
+    pack_rr r cap compress st = pack_rr r cap' compress st.
+Proof. exact pack_rr_has_room. Qed.
+Print Assumptions packrr_result_independent_of_buffer.
+
+(* ---------------- the whole message ---------------- *)
+(* [msg_okb m]: every record of the three sections satisfies rr_okb.
+   [msg_len_with m None] is the uncompressed length (what Pack sizes its
+   buffer from), [msg_len m] is Msg.Len() under the message's own setting,
+   [msg_compress m] = m.Compress && m.isCompressible(). *)
+
+(* the uncompressed length bounds what Pack / PackBuffer write under ANY
+   compression setting and for any caller buffer *)
+Theorem uncompressed_len_never_underestimates :
+  forall (m : msg) (buflen : N) (w : bytes) (used : bool),
+    msg_okb m = true -> pack_msg_buf m buflen = Ok (w, used) -> lenN w <= msg_len_with m None.
+Proof. exact uncompressed_len_ge_pack. Qed.
+Print Assumptions uncompressed_len_never_underestimates.
+
+(* Msg.Len() >= len(Pack()) for messages packed without compression *)
+Theorem msg_len_never_underestimates_uncompressed :
+  forall (m : msg) (w : bytes),
+    msg_okb m = true -> msg_compress m = false -> pack_msg m = Ok w -> lenN w <= msg_len m.
+Proof. exact msg_len_ge_pack_uncompressed. Qed.
+Print Assumptions msg_len_never_underestimates_uncompressed.
+
+(* ... with equality when the message consists of the common types with
+   escape-free, non-empty names and escape-free character-strings *)
+Theorem msg_len_exact_for_plain_messages :
+  forall (m : msg) (w : bytes),
+    msg_plain m = true -> msg_compress m = false -> pack_msg m = Ok w -> lenN w = msg_len m.
+Proof. exact msg_len_exact_plain. Qed.
+Print Assumptions msg_len_exact_for_plain_messages.
+
+(* Pack always has room, compressed or not: PackBuffer into a buffer of ANY
+   length (nil included) returns what Pack returns, the same octets or the same
+   error; so no failure is ever due to the buffer *)
+Theorem pack_always_has_room :
+  forall (m : msg) (buflen : N),
+    msg_okb m = true -> (do r <- pack_msg_buf m buflen; Ok (fst r)) = pack_msg m.
+Proof. exact pack_has_room. Qed.
+Print Assumptions pack_always_has_room.
+
+Theorem pack_errors_are_not_for_lack_of_space :
+  forall (m : msg) (buflen : N) (e : string),
+    msg_okb m = true -> pack_msg_buf m buflen = Err e -> forall buflen', pack_msg_buf m buflen' = Err e.
+Proof. exact pack_error_not_for_lack_of_space. Qed.
+Print Assumptions pack_errors_are_not_for_lack_of_space.
+
+(* PackBuffer writes into the caller's buffer exactly when that buffer is longer
+   than the uncompressed length *)
+Theorem packbuffer_uses_callers_buffer_iff_longer :
+  forall (m : msg) (buflen : N) (w : bytes) (used : bool),
+    pack_msg_buf m buflen = Ok (w, used) -> used = (msg_len_with m None <? buflen).
+Proof. exact pack_buffer_uses_callers_buffer. Qed.
+Print Assumptions packbuffer_uses_callers_buffer_iff_longer.
+
+(* ---------------- non-vacuity ---------------- *)
+Definition ex_mx : rr :=
+  {| rr_name := bytes_of_string "example.org."; rr_type := 15; rr_class := 1; rr_ttl := 3600; rr_rdlength := 0;
+     rr_kind := "MX";
+     rr_data := [("Preference"%string, V_n 10); ("Mx"%string, V_s (bytes_of_string "mail.example.org."))] |}.
+Definition ex_txt : rr :=
+  {| rr_name := bytes_of_string "t.example.org."; rr_type := 16; rr_class := 1; rr_ttl := 60; rr_rdlength := 0;
+     rr_kind := "TXT";
+     rr_data := [("Txt"%string, V_ss [bytes_of_string "v=spf1 -all"; bytes_of_string "second string"])] |}.
+Definition st_empty : pn_state := {| pn_out := []; pn_cm := None |}.
+
+Example ex_mx_hypotheses :
+  rr_okb ex_mx = true /\ rr_plain ex_mx = true /\ is_ok (pack_rr ex_mx 100 false st_empty) = true /\
+  is_ok (pack_rr ex_mx 100 true {| pn_out := [1; 2; 3]; pn_cm := Some [] |}) = true /\ rr_len ex_mx = 43.
+Proof. vm_compute. repeat split; reflexivity. Qed.
+Example ex_txt_hypotheses :
+  rr_okb ex_txt = true /\ rr_plain ex_txt = true /\ is_ok (pack_rr ex_txt 100 false st_empty) = true /\ rr_len ex_txt = 51.
+Proof. vm_compute. repeat split; reflexivity. Qed.
+Example ex_name_hypotheses :
+  is_ok (pack_name (bytes_of_string "a\.b.example.") 64 false st_empty) = true /\
+  (bytes_of_string "a\.b.example.") <> [] /\ (bytes_of_string "a\.b.example.") <> [46].
+Proof. vm_compute. repeat split; discriminate. Qed.
+
+Definition ex_msg (c : bool) : msg :=
+  {| m_id := 4660; m_response := true; m_opcode := 0; m_aa := false; m_tc := false; m_rd := true; m_ra := true;
+     m_z := false; m_ad := false; m_cd := false; m_rcode := 0; m_compress := c;
+     m_question := [{| q_name := bytes_of_string "example.org."; q_type := 15; q_class := 1 |}];
+     m_answer := [ex_mx]; m_ns := []; m_extra := [ex_txt] |}.
+Example ex_msg_hypotheses :
+  msg_okb (ex_msg false) = true /\ msg_plain (ex_msg false) = true /\ msg_compress (ex_msg false) = false /\
+  msg_compress (ex_msg true) = true /\ msg_okb (ex_msg true) = true /\
+  is_ok (pack_msg (ex_msg false)) = true /\ is_ok (pack_msg (ex_msg true)) = true /\
+  msg_len (ex_msg false) = 123 /\ msg_len (ex_msg true) = 90 /\
+  (exists w, pack_msg_buf (ex_msg true) 200 = Ok (w, true)) /\ (exists w, pack_msg_buf (ex_msg true) 100 = Ok (w, false)).
+Proof. vm_compute. repeat split; try reflexivity; eexists; reflexivity. Qed.
+(* an error that does come out with plenty of room (a 5-octet address in an A record) *)
+Definition ex_bad_a : rr :=
+  {| rr_name := bytes_of_string "a."; rr_type := 1; rr_class := 1; rr_ttl := 0; rr_rdlength := 0;
+     rr_kind := "A"; rr_data := [("A"%string, V_b [1; 2; 3; 4; 5])] |}.
+Example ex_error_hypotheses :
+  msg_okb {| m_id := 0; m_response := false; m_opcode := 0; m_aa := false; m_tc := false; m_rd := false; m_ra := false;
+             m_z := false; m_ad := false; m_cd := false; m_rcode := 0; m_compress := false;
+             m_question := []; m_answer := [ex_bad_a]; m_ns := []; m_extra := [] |} = true /\
+  pack_msg_buf {| m_id := 0; m_response := false; m_opcode := 0; m_aa := false; m_tc := false; m_rd := false; m_ra := false;
+             m_z := false; m_ad := false; m_cd := false; m_rcode := 0; m_compress := false;
+             m_question := []; m_answer := [ex_bad_a]; m_ns := []; m_extra := [] |} 4096 = Err "overflow"%string.
+Proof. vm_compute. split; reflexivity. Qed.
